@@ -18,7 +18,9 @@ import (
 	"math"
 	"os"
 	"path/filepath"
+	"runtime"
 	"sort"
+	"strconv"
 	"strings"
 	"sync"
 	"time"
@@ -27,6 +29,7 @@ import (
 	"github.com/feichai0017/NoKV/manifest"
 	"github.com/feichai0017/NoKV/pb"
 	myraft "github.com/feichai0017/NoKV/raft"
+	"github.com/feichai0017/NoKV/raftstore/command"
 	"github.com/feichai0017/NoKV/raftstore/kv"
 	"github.com/feichai0017/NoKV/raftstore/peer"
 	"github.com/feichai0017/NoKV/raftstore/store"
@@ -66,10 +69,14 @@ type Node struct {
 	DB    *NoKV.DB
 	St    *store.Store
 	Inc   int
-	cur   cursor
+	imu   sync.Mutex
+	idx   map[string]cursor // command -> raft position, noted by the Apply wrapper
+	gate  *gate
 	c     *Cluster
 	peers map[uint64]*peer.Peer // region -> peer
 }
+
+type gate struct{ hit, release chan struct{} }
 
 type callResult struct {
 	resp *pb.RaftCmdResponse
@@ -93,6 +100,8 @@ type Call struct {
 	inc           int
 	state         int
 	done          chan callResult
+	park          chan park
+	parks         int // touched by the call's goroutine only
 }
 
 type park struct {
@@ -116,9 +125,11 @@ type Cluster struct {
 	calls  []*Call
 	ncall  int
 	nextTS uint64
-	parkCh chan park
+	byGo   sync.Map // goroutine id -> *Call
 	Sent   int
 	Lost   int
+	// Aligned: the store objects were created within one millisecond
+	Aligned bool
 }
 
 // ---------------------------------------------------------------- transport
@@ -214,7 +225,7 @@ func RespDigest(resp *pb.RaftCmdResponse) (digest string, wok bool, got string) 
 
 func New(dir string, stores []uint64, regions []RegionSpec, emit func(vt.Ev)) (*Cluster, error) {
 	c := &Cluster{Dir: dir, Stores: stores, Regions: regions, Nodes: map[uint64]*Node{}, Tick: [2]int{10, 1},
-		cut: map[[2]uint64]bool{}, emit: emit, nextTS: 100, parkCh: make(chan park, 64)}
+		cut: map[[2]uint64]bool{}, emit: emit, nextTS: 100}
 	utils.VerifHook = c.hook
 	utils.VerifPause("compaction", true)
 	for _, s := range stores {
@@ -223,19 +234,66 @@ func New(dir string, stores []uint64, regions []RegionSpec, emit func(vt.Ev)) (*
 			return nil, err
 		}
 		c.Nodes[s] = n
-		if err := n.open(); err != nil {
+		if err := n.openDB(); err != nil {
+			return nil, err
+		}
+	}
+	// The stores of a cluster may well be started at the same instant: build the store objects (which read
+	// the clock for their request-id base) within one millisecond.
+	for attempt := 0; ; attempt++ {
+		t0 := time.Now().UnixMilli()
+		for time.Now().UnixMilli() == t0 {
+		}
+		t1 := time.Now().UnixMilli()
+		for _, s := range stores {
+			c.Nodes[s].newStore()
+		}
+		c.Aligned = time.Now().UnixMilli() == t1
+		if c.Aligned || attempt >= 40 {
+			break
+		}
+		for _, s := range stores {
+			c.Nodes[s].St.Close()
+		}
+	}
+	for _, s := range stores {
+		if err := c.Nodes[s].startPeers(); err != nil {
 			return nil, err
 		}
 	}
 	return c, nil
 }
 
+// goid identifies the calling goroutine (the yield hook runs on the goroutine of the client call).
+func goid() uint64 {
+	var buf [64]byte
+	f := strings.Fields(string(buf[:runtime.Stack(buf[:], false)]))
+	if len(f) < 2 {
+		return 0
+	}
+	id, _ := strconv.ParseUint(f[1], 10, 64)
+	return id
+}
+
+// hook: only the FIRST time a client call parks is reported to the scheduler (a call may park again, e.g.
+// a read that starts another ReadIndex round); yield points reached by other goroutines are ignored.
 func (c *Cluster) hook(point string, a ...uint64) {
-	switch point {
-	case "store.propose.wait":
-		c.parkCh <- park{"propose", a[0], a[1]}
-	case "peer.read.wait":
-		c.parkCh <- park{"read", a[0], 0}
+	if point != "store.propose.wait" && point != "peer.read.wait" {
+		return
+	}
+	v, ok := c.byGo.Load(goid())
+	if !ok {
+		return
+	}
+	cl := v.(*Call)
+	cl.parks++
+	if cl.parks > 1 {
+		return
+	}
+	if point == "store.propose.wait" {
+		cl.park <- park{"propose", a[0], a[1]}
+	} else {
+		cl.park <- park{"read", a[0], 0}
 	}
 }
 
@@ -248,13 +306,13 @@ func (c *Cluster) meta(r RegionSpec) *manifest.RegionMeta {
 	return m
 }
 
-func (n *Node) open() (err error) {
+// openDB opens (or reopens) the store's DB.
+func (n *Node) openDB() (err error) {
 	defer func() {
 		if p := recover(); p != nil {
 			err = fmt.Errorf("open store %d: panic %v", n.ID, p)
 		}
 	}()
-	c := n.c
 	opt := NoKV.NewDefaultOptions()
 	opt.WorkDir = n.Dir
 	opt.MemTableSize = 1 << 20
@@ -263,24 +321,37 @@ func (n *Node) open() (err error) {
 	opt.ValueThreshold = utils.DefaultValueThreshold
 	n.DB = NoKV.Open(opt)
 	n.Inc++
-	n.cur = cursor{}
+	n.idx = map[string]cursor{}
 	n.peers = map[uint64]*peer.Peer{}
+	return nil
+}
+
+func applyKey(req *pb.RaftCmdRequest) string {
+	return fmt.Sprintf("%d/%d/%s", req.GetHeader().GetRegionId(), req.GetHeader().GetRequestId(), CmdDigest(req))
+}
+
+// newStore builds the store object (this is where the store derives its request-id base from the clock).
+func (n *Node) newStore() {
 	inner := kv.NewApplier(n.DB)
 	applier := func(req *pb.RaftCmdRequest) (*pb.RaftCmdResponse, error) {
+		n.gatePass(req)
 		resp, err := inner(req)
 		n.observe(req, resp, err)
 		return resp, err
 	}
-	// the factory only splits apply batches into single entries so that the applier wrapper knows the
-	// raft index of the command it is handed (CommandApplier itself only sees the request)
+	// the factory only splits apply batches into single entries and notes the raft index of each command
+	// (CommandApplier itself only sees the request); keyed by the command so that it stays right when two
+	// goroutines drive one peer
 	factory := func(cfg *peer.Config) (*peer.Peer, error) {
 		orig, region := cfg.Apply, cfg.Region.ID
 		cfg.Apply = func(entries []myraft.Entry) error {
 			for _, e := range entries {
-				n.cur = cursor{region, e.Index, e.Term}
-				err := orig([]myraft.Entry{e})
-				n.cur = cursor{}
-				if err != nil {
+				if req, ok, derr := command.Decode(e.Data); derr == nil && ok {
+					n.imu.Lock()
+					n.idx[applyKey(req)] = cursor{region, e.Index, e.Term}
+					n.imu.Unlock()
+				}
+				if err := orig([]myraft.Entry{e}); err != nil {
 					return err
 				}
 			}
@@ -289,6 +360,11 @@ func (n *Node) open() (err error) {
 		return peer.NewPeer(cfg)
 	}
 	n.St = store.NewStoreWithConfig(store.Config{StoreID: n.ID, CommandApplier: applier, PeerFactory: factory, CommandTimeout: time.Hour})
+}
+
+// startPeers starts the store's peer of every region.
+func (n *Node) startPeers() error {
+	c := n.c
 	for _, r := range c.Regions {
 		var boot []myraft.Peer
 		for _, s := range c.Stores {
@@ -313,6 +389,30 @@ func (n *Node) open() (err error) {
 	return nil
 }
 
+func (n *Node) open() error {
+	if err := n.openDB(); err != nil {
+		return err
+	}
+	n.newStore()
+	return n.startPeers()
+}
+
+// gatePass blocks the first write command applied on a gated store until the gate is released.
+func (n *Node) gatePass(req *pb.RaftCmdRequest) {
+	rs := req.GetRequests()
+	if len(rs) == 1 && rs[0].GetCmdType() == pb.CmdType_CMD_GET {
+		return
+	}
+	n.imu.Lock()
+	g := n.gate
+	n.gate = nil
+	n.imu.Unlock()
+	if g != nil {
+		close(g.hit)
+		<-g.release
+	}
+}
+
 // observe records what the real applier was handed and what it answered.
 func (n *Node) observe(req *pb.RaftCmdRequest, resp *pb.RaftCmdResponse, err error) {
 	rs := req.GetRequests()
@@ -332,7 +432,10 @@ func (n *Node) observe(req *pb.RaftCmdRequest, resp *pb.RaftCmdResponse, err err
 			break
 		}
 	}
-	n.c.emit(vt.Ev{"e": "Applied", "k": k, "v": v, "s": n.ID, "r": n.cur.region, "idx": n.cur.idx, "term": n.cur.term, "hr": req.GetHeader().GetRegionId(),
+	n.imu.Lock()
+	cur := n.idx[applyKey(req)]
+	n.imu.Unlock()
+	n.c.emit(vt.Ev{"e": "Applied", "k": k, "v": v, "s": n.ID, "r": cur.region, "idx": cur.idx, "term": cur.term, "hr": req.GetHeader().GetRegionId(),
 		"rid": req.GetHeader().GetRequestId(), "from": req.GetHeader().GetPeerId(), "cmd": CmdDigest(req), "resp": d, "wok": wok, "got": got, "inc": n.Inc})
 }
 
@@ -557,6 +660,75 @@ func (c *Cluster) DropMatching(region uint64, among []uint64, inside bool) int {
 	return n
 }
 
+// Race delivers the queued messages for store s's peer of region r with TWO concurrent steppers and a slow
+// applier: the first write command the store applies blocks on a gate; while it is blocked a second goroutine
+// delivers the remaining messages; the gate opens once the second stepper has finished or after `wait`.
+func (c *Cluster) Race(s, r uint64, wait time.Duration) map[string]any {
+	n := c.Nodes[s]
+	sel := func(m *Msg) bool { return m.To == s && m.Region == r && !c.cut[[2]uint64{m.From, m.To}] }
+	pop := func() *Msg {
+		c.mu.Lock()
+		defer c.mu.Unlock()
+		for i, m := range c.Queue {
+			if sel(m) {
+				c.Queue = append(c.Queue[:i:i], c.Queue[i+1:]...)
+				return m
+			}
+		}
+		return nil
+	}
+	g := &gate{hit: make(chan struct{}), release: make(chan struct{})}
+	n.imu.Lock()
+	n.gate = g
+	n.imu.Unlock()
+	info := map[string]any{"first": 0, "second": 0, "gated": false, "overtook": false}
+	first, hit := 0, false
+	for !hit {
+		m := pop()
+		if m == nil {
+			break
+		}
+		first++
+		done := make(chan struct{})
+		go func() { _ = n.St.Step(m.M); close(done) }()
+		select {
+		case <-done:
+		case <-g.hit:
+			hit = true
+			second := 0
+			done2 := make(chan struct{})
+			go func() {
+				for m2 := pop(); m2 != nil; m2 = pop() {
+					second++
+					_ = n.St.Step(m2.M)
+				}
+				close(done2)
+			}()
+			select {
+			case <-done2:
+				info["overtook"] = true
+			case <-time.After(wait):
+			}
+			close(g.release)
+			<-done
+			<-done2
+			info["second"] = second
+		}
+	}
+	n.imu.Lock()
+	n.gate = nil
+	n.imu.Unlock()
+	info["first"], info["gated"] = first, hit
+	c.settle()
+	return info
+}
+
+// Wait lets wall-clock time pass (the ReadIndex context of Store.ReadCommand is a wall-clock timeout).
+func (c *Cluster) Wait(d time.Duration) {
+	time.Sleep(d)
+	c.settle()
+}
+
 func (c *Cluster) Partition(a, b []uint64) {
 	for _, x := range a {
 		for _, y := range b {
@@ -606,6 +778,7 @@ func (c *Cluster) start(cl *Call, fn func() (*pb.RaftCmdResponse, error)) {
 	cl.ID = c.ncall
 	cl.inc = c.Nodes[cl.Store].Inc
 	cl.done = make(chan callResult, 1)
+	cl.park = make(chan park, 1)
 	c.calls = append(c.calls, cl)
 	if cl.Kind == "propose" {
 		c.emit(c.callEv("ProposeCall", cl))
@@ -613,6 +786,9 @@ func (c *Cluster) start(cl *Call, fn func() (*pb.RaftCmdResponse, error)) {
 		c.emit(c.callEv("ReadCall", cl))
 	}
 	go func() {
+		id := goid()
+		c.byGo.Store(id, cl)
+		defer c.byGo.Delete(id)
 		defer func() {
 			if p := recover(); p != nil {
 				cl.done <- callResult{nil, fmt.Errorf("panic: %v", p)}
@@ -624,12 +800,12 @@ func (c *Cluster) start(cl *Call, fn func() (*pb.RaftCmdResponse, error)) {
 	select {
 	case res := <-cl.done:
 		c.finish(cl, res)
-	case p := <-c.parkCh:
+	case p := <-cl.park:
 		cl.state = callParked
 		if p.kind == "propose" {
 			cl.RID = p.b
 		}
-		c.emit(vt.Ev{"e": "Parked", "c": cl.ID, "s": cl.Store, "r": cl.Region, "rid": cl.RID})
+		c.emit(vt.Ev{"e": "Parked", "c": cl.ID, "s": cl.Store, "r": cl.Region, "rid": cl.RID, "inc": cl.inc})
 	}
 	c.settle()
 }
